@@ -123,6 +123,10 @@ def edge_oracle(ctx, o):
                       {"kind": "total_model_series", "label": o["label"]}, dict(inp, observed=gots, model=wants), found_input=False)
 
 
+# degenerate setups with the same polarisation, angles, waists and waist positions for signal and idler
+SYMMETRIC_SETUPS = ("bbo_type1", "ktp_pp_type0_deg", "lnb_pp_type0_deg")
+
+
 def arr_input(o):
     return {"cols": o["cols"], "rows": o["rows"], "signal_axis": [f64_of_hex(h) for h in o["xs"]], "idler_axis": [f64_of_hex(h) for h in o["ys"]],
             "family": o["family"], "second_array": o["gkind"],
@@ -181,6 +185,33 @@ def oracle(ctx, obs):
                                   {"kind": "dip_position"}, dict(inp, t0=t0, tau=taus[j], rate=singles[j]))
         elif kind == "edge":
             edge_oracle(ctx, o)
+        elif kind == "twin":
+            ctx.seen(("twin", o["setup"], o["n"], tuple(o["xs"] + o["ys"] + o["taus"])))
+            ctx.count(f"twin:{o['setup']}:{'sym' if o['symmetric_axes'] else 'asym'}")
+            taus = [f64_of_hex(t) for t in o["taus"]]
+            rep0 = {"setup": o["setup"], "config_json": o.get("config"), "n": o["n"], "signal_axis_rad_per_s": [f64_of_hex(h) for h in o["xs"]],
+                    "idler_axis_rad_per_s": [f64_of_hex(h) for h in o["ys"]], "taus_s": taus,
+                    "call": "spdc.hom_rate_series(taus, range, Integrator::default()) vs hom_rate_series(range, spdc.jsa_range(range), "
+                            "spdc.with_swapped_signal_idler().jsa_range(range), taus)"}
+            if not isinstance(o["series_setup"], list) or not isinstance(o["series_twin"], list):
+                ctx.violation("S5", f"HOM call panicked for setup {o['setup']} or its exchanged twin", {"kind": "panic", "setup": o["setup"]},
+                              dict(rep0, setup_level=o["series_setup"], with_twin=o["series_twin"]))
+                continue
+            if f64_of_hex(o["jsi_norm"]) == 0.0:
+                continue
+            a, b = [f64_of_hex(x) for x in o["series_setup"]], [f64_of_hex(x) for x in o["series_twin"]]
+            for j, tau in enumerate(taus):
+                if not (fin(a[j]) and fin(b[j]) and abs(a[j] - b[j]) <= SLACK):
+                    ctx.violation("S5", f"setup-level HOM rate {a[j]!r} differs from the array-level rate with the exchanged twin's jsa_range as second array {b[j]!r} "
+                                        f"at tau={tau!r} ({o['setup']})", {"kind": "setup_vs_twin", "setup": o["setup"]}, dict(rep0, tau=tau, setup_level=a[j], with_twin=b[j]))
+            if o["setup"] in SYMMETRIC_SETUPS:
+                if not abs(a[0]) <= 1e-12:
+                    ctx.violation("S5", f"exchange-symmetric setup {o['setup']}: HOM rate at zero delay is {a[0]!r}, expected 0", {"kind": "symmetric_setup_dip", "setup": o["setup"]},
+                                  dict(rep0, tau=0.0, rate=a[0]))
+                asym = f64_of_hex(o["asymmetry"])
+                if o["symmetric_axes"] and not asym <= 1e-12:
+                    ctx.violation("S5", f"exchange-symmetric setup {o['setup']}: the sampled JSA on identical axes is not symmetric (max |f - f^T| / max |f| = {asym!r})",
+                                  {"kind": "symmetric_setup_jsa", "setup": o["setup"]}, dict(rep0, asymmetry=asym))
         elif kind == "gauss":
             sigma, t0, n = f64_of_hex(o["sigma"]), f64_of_hex(o["t0"]), o["n"]
             ctx.seen(("gauss", o["sigma"], o["t0"], n))
@@ -345,14 +376,14 @@ def correspondence(ctx, obs, max_cells_q, max_cells_i, max_goals):
 
 def run(ctx):
     binp = build_harness(ctx)
-    msgs, spans = regen(ctx, ["hom"])
+    msgs, spans = regen(ctx, ["hom", "pm_integrand"])
     ctx.cov["translated_spans"] = {k: v for k, v in spans.items() if "hom" in v["file"]}
     for m in msgs:
         ctx.proof_failures.append(("Gen/HomSrc.v", "translator", m))
     proved = (not msgs) and prove(ctx, "C09")
     quick = ctx.tier == "quick"
     ncases, max_side, nsetup, ngauss = (84, 8, 9, 6) if quick else (350, 16, 36, 30)
-    obs = run_harness(ctx, binp, ["c09", ctx.seed, ncases, max_side, nsetup, ngauss, 36 if quick else 120])
+    obs = run_harness(ctx, binp, ["c09", ctx.seed, ncases, max_side, nsetup, ngauss, 36 if quick else 120, 18 if quick else 54])
     oracle(ctx, obs)
     for o in [x for x in obs if x["kind"] == "arr"][8:10]:
         ctx.sample({"family": o["family"], "cols": o["cols"], "rows": o["rows"], "taus": [fl(t) for t in o["taus"]], "rates": [fl(x) for x in o["singles"]]})
@@ -384,6 +415,8 @@ def run(ctx):
             "(C09_setup_is_array_level, C09_setup_exchanged_is_transpose); measured Rust-vs-Rust (1e-9)",
         "panic / NaN / infinity paths (short slices, zero norm, empty delay list)": "proved on the total model (C09_total_panic_iff, C09_total_default_norm, "
             "C09_total_zero_norm, C09_series_total_cases, C09_total_is_model); implementation exercised under catch_unwind and compared with the model's outcome",
+        "composition with the generated spectrum model (C06)": "proved (C09_symmetric_setup_dip: exchange-symmetric setups give rate 0 at zero delay for every "
+            "quadrature; C09_setup_is_array_with_twin: the second array is the exchanged twin's jsa_range); measured Rust-vs-Rust on 6 setups and their twins",
         "binary64 result vs real model": "validated_only (vm_compute at zero delay and, with Pythagorean phases, at delays m0 atan(4/3)/h, 1e-12; interval goals at other delays 1e-10)"}
     return finish(ctx, assumptions=[
         "arrays have the grid's length (as every caller in the crate passes); shorter arrays panic on indexing, not modelled",
